@@ -4563,6 +4563,14 @@ fn eval_builtin<S: EvalSemantics, V: DocumentValue>(
                     .map(to_owned_cursor)
                     .collect();
                 GenericResult::Owned(OwnedValue::Array(values))
+            } else if S::TAG == EvalTag::Jq && value.is_null() {
+                // jq: null | reverse => [] (mirrors `eval::builtin_reverse`).
+                // yq's own `reverse` only accepts a sequence, so the string
+                // and null arms are jq-mode only.
+                GenericResult::Owned(OwnedValue::Array(Vec::new()))
+            } else if let (EvalTag::Jq, Some(s)) = (S::TAG, value.as_str()) {
+                // jq >= 1.7: reverse also works on strings, by codepoint
+                GenericResult::Owned(OwnedValue::String(s.chars().rev().collect()))
             } else if optional {
                 GenericResult::None
             } else {
@@ -4805,6 +4813,38 @@ mod tests {
             matches!(result, GenericResult::None),
             "expected None, got {result:?}"
         );
+    }
+
+    /// `reverse` must agree with `eval::builtin_reverse` in jq mode: `null`
+    /// reverses to `[]` and a string reverses by codepoint, rather than both
+    /// raising `Cannot index ... with number`.
+    #[test]
+    fn test_generic_reverse_null_and_string_match_library_evaluator() {
+        let reverse = parse("reverse").unwrap();
+        for (json, expected) in [
+            (&b"null"[..], OwnedValue::Array(Vec::new())),
+            (br#""abc""#, OwnedValue::String("cba".to_string())),
+            (br#""""#, OwnedValue::String(String::new())),
+            (
+                b"[1,2]",
+                OwnedValue::Array(vec![OwnedValue::Int(2), OwnedValue::Int(1)]),
+            ),
+        ] {
+            let index = JsonIndex::build(json);
+            let value = index.root(json).value();
+            assert_eq!(eval(&reverse, value).into_owned(), Some(expected));
+        }
+
+        // Every other type still errors (or is suppressed by `?`).
+        let json = b"1";
+        let index = JsonIndex::build(json);
+        let value = index.root(json).value();
+        assert!(matches!(
+            eval(&reverse, value.clone()),
+            GenericResult::Error(_)
+        ));
+        let result = eval(&parse("reverse?").unwrap(), value);
+        assert!(matches!(result, GenericResult::None), "got {result:?}");
     }
 
     #[test]
